@@ -13,7 +13,7 @@ import sys
 
 seed = os.path.abspath(sys.argv[1])
 props = sys.argv[2:]
-tag = os.path.basename(os.path.dirname(seed)) + "_" + os.path.basename(seed) if os.path.basename(seed) in ("A", "B") else os.path.basename(seed)
+tag = seed.strip("/").replace("/", "_")
 base = f"/tmp/mt/{tag}"
 shutil.rmtree(base, ignore_errors=True)
 os.makedirs(base)
